@@ -100,7 +100,7 @@ Require Import Calc.ExprSem Calc.ExprVM Calc.ExprCorrect Calc.ExprTop Calc.ExprA
 Theorem C05_statement_runs_never_abort : forall t s s' v c m n G' res fuel,
   wstmt t = true -> ExprCorrect.wfcs s -> idle v s c m ->
   ByteCode t s = CompOk s' ->
-  ssem n (v_globals v) t = Some (G', res) ->
+  ssem n (wof v) t = Some (G', res) ->
   match snd (Run fuel (load_code v s') true) with
   | RAbort _ => False
   | RExit _ => False
